@@ -229,7 +229,8 @@ class C20(Check):
                     if k.arg == "bounds" and isinstance(expand_locals(k.value, defs), (ast.ListComp, ast.GeneratorExp, ast.Call)):
                         seqs.append(("bounds", k.value, order(k.value, defs, p0)))
                 if f == "_pack_updates" and len(c.args) == 2:
-                    seqs.append(("candidate-names", c.args[1], order(c.args[1], defs, p0)))
+                    kind = "result-names" if norm(expand_locals(c.args[0], defs)).endswith(".x") else "candidate-names"
+                    seqs.append((kind, c.args[1], order(c.args[1], defs, p0)))
                 elif f == "zip" and len(c.args) >= 2:
                     second = norm(expand_locals(c.args[1], defs))
                     if second.endswith(".x"):
@@ -510,6 +511,7 @@ class C20(Check):
 
     def must_fire(self):
         return [
+            Variant("sorted-candidate-names", "minimizers/_scipy.py", "LocalScipyMinimizer.__call__", "par_names = list(p0.keys())", "par_names = sorted(p0)", expect="L6|", quick=True),
             Variant("rmse-without-square", LOSSES, "rmse", "np.sqrt(np.mean(np.square(y_pred - y_true)))", "np.sqrt(np.mean(y_pred - y_true))", expect="L1|fit/losses.py|rmse", quick=True),
             Variant("mae-without-abs", LOSSES, "mae", "np.mean(np.abs(y_true - y_pred))", "np.mean(y_true - y_pred)", expect="L1|fit/losses.py|mae", quick=True),
             Variant("default-no-copy", ROUT, "time_course", "as_deepcopy: bool=True", "as_deepcopy: bool=False", expect="L2|fit/routines.py|time_course|default-true", quick=True),
